@@ -445,6 +445,12 @@ func c17Oracle(c C17Snap) error {
 			if strings.ContainsAny(v, "\"<> \t\n\r") {
 				return fmt.Errorf("link target not URL-escaped: %s=%q", a.Key, v)
 			}
+			// The pages link to files, packages and source lines: a path and at most one
+			// fragment the template adds itself. A '?' or a second '#' can only be dump text
+			// that was not escaped, and cuts the path short.
+			if !strings.HasPrefix(v, "data:") && (strings.Contains(v, "?") || strings.Count(v, "#") > 1) {
+				return fmt.Errorf("link target with a query or fragment of the dump's own: %s=%q", a.Key, v)
+			}
 		}
 	}
 	// Character data round trip and completeness, on the parsed tree.
